@@ -6,6 +6,45 @@ COMMON_ASSUME = [
     "Kani's panic=abort semantics; every loop fully unwound (unwinding assertions on)",
 ]
 
+# Overlay used by the harnesses that touch HashableHashSet/HashableHashMap (Timers, RandomChoices):
+# * the scratch buffer of util.rs is a `thread_local!` with a destructor, whose registration is a
+#   foreign call Kani cannot execute; under cfg(kani) the same `BUFFER.with(|b| ..)` expression
+#   hands the closure a fresh empty buffer (the algorithm clears the buffer first anyway, so this
+#   is behaviourally identical). The hashing algorithm itself is untouched.
+# * ahash::RandomState::new() reaches the getrandom syscall -> fixed-bytes model.
+BUFFER_TRANSFORM = {
+    "file": "src/util.rs",
+    "regex": r"^thread_local!\(static BUFFER: RefCell<Vec<u64>> = RefCell::new\(Vec::with_capacity\(100\)\)\);",
+    "repl": (
+        "#[cfg(not(kani))]\n"
+        "thread_local!(static BUFFER: RefCell<Vec<u64>> = RefCell::new(Vec::with_capacity(100)));\n"
+        "#[cfg(kani)]\nstruct VerifBuffer;\n"
+        "#[cfg(kani)]\nimpl VerifBuffer {\n    fn with<R>(&'static self, f: impl FnOnce(&RefCell<Vec<u64>>) -> R) -> R {\n        let fresh = RefCell::new(Vec::new());\n        f(&fresh)\n    }\n}\n"
+        "#[cfg(kani)]\nstatic BUFFER: VerifBuffer = VerifBuffer;"
+    ),
+}
+GETRANDOM_PATCH = 'getrandom = {{ path = "{v}/shims/getrandom" }}\nonce_cell = {{ path = "{v}/shims/once_cell" }}'
+# Container models: in the scratch copy the listed files import /verif/models/collections.rs
+# (copied to src/verif_models.rs) instead of std::collections.
+MODEL_FILES = [
+    "src/util.rs", "src/actor/network.rs", "src/checker/rewrite.rs", "src/semantics/linearizability.rs",
+    "src/semantics/sequential_consistency.rs", "src/has_discoveries.rs", "src/actor/model.rs",
+]
+MODEL_TRANSFORMS = [{"file": f, "regex": r"std::collections::", "repl": "crate::verif_models::", "min": 1} for f in MODEL_FILES] + [
+    {"file": "src/util.rs", "regex": r"buffer\.sort_unstable\(\);", "repl": "crate::verif_models::sort_u64(&mut buffer[..]);", "min": 2},
+]
+MODELS_ASSUME = [
+    "std::collections::{HashMap,HashSet,BTreeMap,BTreeSet,VecDeque} replaced IN THE SCRATCH COPY (files: " + ", ".join(MODEL_FILES) + ") by Vec-backed models "
+    "(/verif/models/collections.rs) implementing the documented std contract: unique keys, order-insensitive equality for hash containers, ascending key order and "
+    "std's Eq/Ord/Hash for B-tree containers and VecDeque; hash containers iterate in insertion order (one legal order; oracles are order-insensitive)",
+    "<[u64]>::sort_unstable in util.rs's order-insensitive hashing replaced by an insertion-sort model with the same contract (ascending permutation)",
+    "once_cell replaced by a sequential model (the race branch of the real OnceBox yields spurious free() failures under Kani's atomics model)",
+]
+HASHSET_ASSUME = [
+    "util.rs scratch BUFFER thread_local replaced under cfg(kani) by an object whose `with` hands out a fresh empty buffer (the algorithm clears it first anyway; scratch copy only)",
+    "getrandom 0.3 replaced by a fixed-bytes model (hasher seeds only affect iteration order of non-empty hash tables; the harness tables are empty)",
+]
+
 PROPS = {
     "C20": {
         "engine": "kani",
@@ -69,5 +108,59 @@ PROPS = {
         "bounds": {"values": "u8 (specs), char (hooks)", "vec_len": "0..=3", "history_len": "0..=3", "put_count": "<= 2^16", "server_count": "1..=2^16", "clients": "index - server_count < 26 (values are letters)", "op_count": "<= 2^16+2", "unwind": "3-6"},
         "outside": ["state of the object after a REJECTED step (the override and invoke legitimately differ there; testers discard the object)", "whole-model histories with the real Linearizability/SequentialConsistency testers (BTreeMap-bound, see C08/C14)", "specs over other value types"],
         "assumptions": COMMON_ASSUME + ["clients are added after servers (documented; the opposite is checked to be rejected)", "at most 26 clients (documented value scheme 'A'+k / 'Z'-k)"],
+    },
+    "C10": {
+        "engine": "kani",
+        "files": ["c10.rs"],
+        "extra_patches": [GETRANDOM_PATCH],
+        "transforms": [BUFFER_TRANSFORM] + MODEL_TRANSFORMS,
+        "explanation": (
+            "Bounded symbolic model checking (Kani/CBMC) of the real plan/rewrite/representative code: for EVERY value vector of "
+            "length <=3 (thorough 4) over {0..3} (ties common) the plan from from_values_to_sort equals the stable-sorting-permutation "
+            "formula rank(i) = #smaller + #equal-before, is a permutation, reindex sorts, and reindex and rewrite are consistent on an "
+            "independent id vector; plans from DenseNatMap agree; structural Rewrite impls (Vec, pair, Option, VecDeque, Arc, Envelope, "
+            "DenseNatMap<Id,Id>, scalars) apply the plan pointwise in order; ActorModelState::representative() for <=3 actors with "
+            "symbolic actor states embedding an id, symbolic crash flags and a 2-id history equals the image under that ONE permutation "
+            "of actor states (moved + embedded ids rewritten), crash flags (moved) and history (rewritten)."
+        ),
+        "bounds": {"vector_len": "1..=3 (thorough 4)", "values": "0..=3 (u8)", "actors": "1..=3", "history": "2 ids", "unwind": "7-8"},
+        "outside": ["verdict preservation / state-count inequalities of DFS with symmetry (checker loops, see C01)", "rewriting of NON-EMPTY networks, timers and random choices (hash containers)", "longer vectors"],
+        "assumptions": COMMON_ASSUME + HASHSET_ASSUME + MODELS_ASSUME + ["ids embedded in states/history refer to existing actors (< n), as the plan's lookup requires"],
+    },
+    "C04": {
+        "engine": "kani",
+        "files": ["common.rs", "c04.rs"],
+        "extra_patches": [GETRANDOM_PATCH],
+        "transforms": [BUFFER_TRANSFORM] + MODEL_TRANSFORMS,
+        "explanation": (
+            "Bounded symbolic model checking (Kani/CBMC) of the real Hash/PartialEq code through a recording Hasher that captures the "
+            "exact byte stream and call structure: for two arbitrary values x,y the solver decides x==y => identical stream, x!=y => "
+            "different byte stream, and == is componentwise equality - for pairs of VectorClocks side by side (incl. the adjacency shapes "
+            "([x],[]) vs ([],[x])), pairs of DenseNatMap<Id,u8>, and ActorModelState<_,u8> with 1 (thorough 2) actors over ALL actor "
+            "states, histories and crash-flag vectors (timers, random choices, network empty): states differing only in a crash flag are "
+            "different states with different streams. (Single VectorClock coherence is decided in C20's hash harnesses.)"
+        ),
+        "bounds": {"clock_len": "0..=2 per clock in pairs", "map_len": "0..=3", "actors": "1 (thorough 2; measured 688 s)", "components": "full u32 / u8", "unwind": "3-11"},
+        "outside": ["HashableHashSet/HashableHashMap, Timers, Network (unordered kinds), RandomChoices WITH ELEMENTS and the consistency testers: hashbrown/BTreeMap code is out of CBMC's reach (measured: no verdict in 15 min for a one-element set) - so insertion-order/capacity/seed independence and the adjacent-set collision are not decided here", "reachable states of arbitrary actor models"],
+        "assumptions": COMMON_ASSUME + HASHSET_ASSUME + MODELS_ASSUME,
+    },
+    "C09": {
+        "engine": "kani",
+        "files": ["common.rs", "c09.rs"],
+        "extra_patches": [GETRANDOM_PATCH],
+        "transforms": [BUFFER_TRANSFORM] + MODEL_TRANSFORMS,
+        "timeout": {"quick": 400, "thorough": 2400},
+        "explanation": (
+            "Bounded symbolic model checking (Kani/CBMC) of the real ActorModel::next_state / actions code for systems of 1 (thorough 2) "
+            "actors, over ALL actor states, crash-flag vectors, budgets, sources and messages: "
+            "next_state(Crash(i)) sets exactly flag i, leaves all else unchanged, leaves i without timers/choices and yields a state that "
+            "is != its predecessor with a different hasher stream; next_state(Deliver{dst:i}) is None for every crashed i and runs the "
+            "handler for every i that is up without touching other actors or flags; actions() offers Crash(i) exactly for the actors "
+            "that are up, in order, and only while #down < max_crashes (budget arithmetic); a crash of an actor HOLDING a timer / a pending "
+            "random choice discards it; on an ordered network a delivery to a crashed actor yields no successor either."
+        ),
+        "bounds": {"actors": "1 (thorough 2)", "budget": "0..=N+1", "values": "u8 states/messages/timers/randoms, all usize source ids", "pending": "<=1 timer, <=1 choice (empty-string key)", "unwind": "3-4"},
+        "outside": ["systems of 3+ actors, several pending timers/choices, choice keys that are non-empty strings (symbolic-size allocation on clone)", "that a checker explores each crashed combination (checker loops, see C01)"],
+        "assumptions": COMMON_ASSUME + HASHSET_ASSUME + MODELS_ASSUME,
     },
 }
